@@ -1,13 +1,14 @@
 #!/usr/bin/env python3
 """Run the checks against every seeded change under /verif/seeded and record what detects it.
-usage: seedsweep.py [-j N] [--tier quick] [--also C04,C06] [names...]
+usage: seedsweep.py [-j N] [--tier quick] [--also C04,C06] [--harvest] [names...]
+--harvest: copy the replay file of the first violation into /verif/corpus/<property>/seeded-<name>.json
 For each /verif/seeded/<name>/patch.diff: copy /repo (without .git) to a scratch directory under /tmp,
 apply the patch there (never in /repo), run `vf check <property>` with VERIF_REPO pointing at the copy,
 remove the copy, and store exit code + violation keys in seeded/<name>/meta.json ("detected_by").
 Exit 0 iff every swept change was detected by the check of its own property."""
 import json, os, re, subprocess, sys, tempfile, shutil, concurrent.futures as cf
 V = '/verif'
-def sweep(name, tier, also):
+def sweep(name, tier, also, harvest=False):
     d = os.path.join(V, 'seeded', name)
     meta = json.load(open(os.path.join(d, 'meta.json')))
     tmp = tempfile.mkdtemp(prefix='mut-', dir='/tmp')
@@ -21,27 +22,47 @@ def sweep(name, tier, also):
             env = dict(os.environ, VERIF_REPO=tmp, VERIF_TIER=tier, VERIF_SEED=os.environ.get('VERIF_SEED', '1'))
             p = subprocess.run(['./vf', 'check', chk, '--tier', tier], cwd=V, env=env, capture_output=True, text=True, timeout=3000)
             keys = {}
+            replay = None
             for l in p.stdout.splitlines() + p.stderr.splitlines():
                 m = re.match(r'\[vf\]\s+key=(\S+)', l)
                 if m:
                     keys[m.group(1)] = keys.get(m.group(1), 0) + 1
+                m = re.match(r'VIOLATION property=(\S+) replay=(\S+)', l)
+                if m and replay is None and not (keys and False):
+                    replay = m.group(2)
             res[chk] = {'tier': tier, 'seed': int(env['VERIF_SEED']), 'exit_code': p.returncode, 'violation_keys': sorted(keys)}
+            if harvest and chk == meta['property'] and p.returncode == 1 and replay and os.path.exists(replay):
+                # the (shrunk) case that exposed this change becomes a regression case of the corpus:
+                # it is replayed first on every run, whatever the seed draws
+                try:
+                    d = json.load(open(replay))
+                    if isinstance(d.get('case'), (dict, list)) and not str(d.get('finding_key', '')).startswith(('race.', 'harness.')):
+                        dst = os.path.join(V, 'corpus', chk, 'seeded-%s.json' % name)
+                        if not os.path.exists(dst):
+                            os.makedirs(os.path.dirname(dst), exist_ok=True)
+                            keep = {k: d[k] for k in ('property', 'test', 'case') if k in d}
+                            keep['note'] = 'the case with which the check first exposed seeded change %s (key %s)' % (name, d.get('finding_key'))
+                            json.dump(keep, open(dst, 'w'), indent=1)
+                            res[chk]['corpus_case'] = os.path.relpath(dst, V)
+                except Exception as e:
+                    res[chk]['harvest_error'] = str(e)
         return name, res
     finally:
         shutil.rmtree(tmp, ignore_errors=True)
 def main():
-    a = sys.argv[1:]; j = 3; tier = 'quick'; also = []; names = []
+    a = sys.argv[1:]; j = 3; tier = 'quick'; also = []; names = []; harvest = False
     while a:
         x = a.pop(0)
         if x == '-j': j = int(a.pop(0))
         elif x == '--tier': tier = a.pop(0)
         elif x == '--also': also = a.pop(0).split(',')
+        elif x == '--harvest': harvest = True
         else: names.append(x)
     if not names:
         names = sorted(n for n in os.listdir(os.path.join(V, 'seeded')) if os.path.exists(os.path.join(V, 'seeded', n, 'patch.diff')))
     bad = 0
     with cf.ThreadPoolExecutor(j) as ex:
-        for name, res in ex.map(lambda n: sweep(n, tier, also), names):
+        for name, res in ex.map(lambda n: sweep(n, tier, also, harvest), names):
             mp = os.path.join(V, 'seeded', name, 'meta.json')
             meta = json.load(open(mp))
             db = meta.get('detected_by', {})
